@@ -57,4 +57,18 @@ PROPS = {
                      "bursts are in transmission order (UART: least significant bit first), which is the order the reflected CRC processes"],
         "assumptions": ["packets shorter than 32767 bits (4095 bytes) for the two-bit guarantee", "subjects without leading/trailing NUL"],
     },
+    "C18": {
+        "required_theorems": ["c18_conforms", "c18_total", "c18_tooShort_iff", "c18_exception_keeps_regs", "c18_reads_keep_regs",
+                              "setReg_read", "statusByte_bit", "gen_modbus_pinned", "minRequestLen_table"],
+        "n": {"quick": 20000, "thorough": 200000},
+        "thorough_seeds": 3,
+        "rule": "register maps (empty, dense from 0 up to 130, gaps, validators even/never/less-than, top and bottom of the address space, "
+                "coil registers incl. 4090-4095, sparse with duplicate specs) x requests (reads/writes with quantities 0,1,limit-1,limit,limit+1,2040,2041,32767,32768,65535; "
+                "addresses 0..65535 incl. range crossing 0xFFFF; wrong byte counts / lengths; all 256 function codes with random data; truncated headers); "
+                "observation = response bytes + whole register file; distinct = distinct case line; every case non-trivial",
+        "trusted": ["sync.RWMutex in Regs (single-threaded here)"],
+        "modelled": ["modbus/pdu.go ProcessRequest and modbus/reg.go Regs modelled by hand (Siot/Model/Modbus.lean); Go slices/ints as lists/naturals with the fixed-width steps written out",
+                     "the specification Siot/Spec/ModbusSpec.lean is my transcription of MODBUS Application Protocol V1.1b3 section 6; for multiple writes it reuses the model's write loop for the success state"],
+        "assumptions": [],
+    },
 }
